@@ -217,14 +217,20 @@ theorem resHas_filter (m : ResMap) (k k' : Nat) :
   | nil => simp [resHas]
   | cons e es ih =>
     obtain ⟨a, v⟩ := e
-    by_cases ha : a = k <;> by_cases h : a = k' <;>
-      simp_all [List.filter_cons, resHas] <;> grind
+    simp only [List.filter_cons]
+    by_cases ha : a = k
+    · subst ha
+      simp only [bne_self_eq_false, Bool.false_eq_true, ↓reduceIte, ih, resHas]
+      by_cases h : a = k' <;> grind
+    · have : (a != k) = true := by simp [ha]
+      simp only [this, ↓reduceIte, resHas, ih]
+      by_cases h : a = k' <;> grind
 
 theorem resHas_resSet (m : ResMap) (k k' : Nat) (v : Int) :
     resHas (resSet m k v) k' = (k == k' || resHas m k') := by
   unfold resSet
   simp only [resHas, resHas_filter]
-  by_cases h : k = k' <;> simp_all
+  by_cases h : k = k' <;> grind
 
 /-- the amount a pod's NUMANodeResources put into cell `k`. -/
 def cellOf : List (Nat × Int) → Nat → Int
@@ -453,10 +459,10 @@ theorem releasePod_spec {L : Ledger} (h : Inv L) (uid : Nat) :
     have hr := foldl_relCell p.numa L.res (h.nonneg p hpm.1) (h.present p hpm.1) (fun k => by
       have := hsplitK k; have := hrestK k; have := h.cells k; omega)
     refine ⟨⟨filter_uid_nodup _ _ h.uids, hc.1, ?_, ?_, ?_, ?_⟩, filter_uid_not_mem _ _, ?_⟩
-    · intro c; rw [hc.2 c, h.refs c, hsplitC c]; omega
+    · intro c; dsimp only; rw [hc.2 c, h.refs c, hsplitC c]; omega
     · intro q hq; exact h.nonneg q (List.mem_filter.mp hq).1
     · intro q hq e he; exact hr.2 _ (h.present q (List.mem_filter.mp hq).1 e he)
-    · intro k; rw [hr.1 k, h.cells k, hsplitK k]; omega
+    · intro k; dsimp only; rw [hr.1 k, h.cells k, hsplitK k]; omega
     · intro c; rw [hc.2 c]; have := cnt_nonneg p.cpus c; omega
 
 theorem inv_releasePod {L : Ledger} (h : Inv L) (uid : Nat) : Inv (releasePod L uid) :=
